@@ -28,7 +28,7 @@ RULE = ("Hypothesis-generated configurations: A in {dense MatMul, Identity, diag
         "(history: nothing cached on shared objects may leak into a later solve).")
 ASSUMPTIONS = [
     "conditioning is controlled by construction (singular values of A in [1/4,1] (quick) or [1/30,1] (thorough class), ||G|| <= 2) so that "
-    "the iteration budgets below suffice: CG n+2, GradientMethod 800, PDHG 3000, ADMM 500 (x10 CG each)",
+    "the iteration budgets below suffice: CG n+2, GradientMethod 800, PDHG 3000, ADMM max(500, log(1e-3)/log(q)) with q = rho||G||^2/(rho||G||^2 + lambda_min(A^H A + lamda I)) (x10 CG each; ADMM not run when that exceeds 40000)",
     "BoxConstraint only for real data (numpy clip on complex numbers is not a projection)",
     "z is None or an array (the property's quantifier); the Hessian A^H A + lamda I is nonsingular (full column rank A)",
     "cases whose reference optimum cannot be certified (duality gap > 1e-8) are skipped and counted",
@@ -123,6 +123,7 @@ def build_problem(case):
         x0 = (0.5 * (rng.standard_normal(n) + (1j * rng.standard_normal(n) if cplx else 0))).astype(dt).reshape(n, 1)
         if pk == "box" and Gop is None:
             x0 = np.clip(x0.real, -gpar, gpar).astype(dt)
+    y = _lay(y, case.get("layout", "c"))
     prob = Problem(Am, y, lamda, z, Gm, pk, gpar)
     return dict(Aop=Aop, Am=Am, y=y, z=z, Gop=Gop, Gm=Gm, proxg=proxg, x0=x0, prob=prob, n=n, m=m, dt=dt, lamda=lamda)
 
@@ -164,6 +165,8 @@ def check_case(case):
     warnings.simplefilter("ignore")
     r = R()
     P = build_problem(case)
+    if case.get("layout", "c") != "c":
+        r.label("layout:" + case["layout"])
     r.label("A:" + case["A"], "G:" + str(case["G"]), "prox:" + str(case["proxg"]), "lamda>0" if case["lamda"] else "lamda=0",
             "z" if case["z"] else "no-z", "given" if case["given"] else "defaulted", "cplx" if case["cplx"] else "real")
     r.sig = "|".join("%s=%s" % (k, case[k]) for k in sorted(case) if k not in ("part", "prelude", "seed"))
@@ -183,6 +186,19 @@ def check_case(case):
         r.label("reuse:" + case["reuse"])
         _solve_all(r, case, P2, ":reused-objects")
     return r
+
+
+def _lay(v, layout):
+    """the caller's [n,1] array held as a view of a larger buffer (same values)"""
+    if layout == "strided":
+        big = np.zeros((2 * v.shape[0], 1), v.dtype)
+        big[::2] = v
+        return big[::2]
+    if layout == "column":
+        big = np.zeros((v.shape[0], 3), v.dtype)
+        big[:, 1:2] = v
+        return big[:, 1:2]
+    return v
 
 
 def _solve_all(r, case, P, tag):
@@ -210,9 +226,23 @@ def _solve_all(r, case, P, tag):
         mi = MAX_ITER[eff] or (n + 2)
         if case["smin"] < 0.2:
             mi *= 8
+        if eff == "ADMM":
+            # ADMM contracts like q = rho c / (rho c + lambda_min(A^H A + lamda I)) per update (c = ||G||^2, 1 without G):
+            # the budget must cover q^N <= 1e-3 (objective gap ~ error^2), otherwise slow convergence on an
+            # ill-conditioned instance would be reported as a wrong minimiser. Instances needing more than
+            # 40000 updates are not run with ADMM (labelled, inconclusive).
+            rho = kw.get("rho", 1)
+            cG = 1.0 if P["Gm"] is None else max(float(np.linalg.norm(P["Gm"], 2)) ** 2, 1e-12)
+            lmin = float(np.linalg.eigvalsh(P["Am"].conj().T @ P["Am"])[0]) + P["lamda"]
+            q = rho * cG / (rho * cG + max(lmin, 1e-300))
+            need = int(np.ceil(np.log(1e-3) / np.log(q))) if q < 1 else 10 ** 9
+            if need > 40000:
+                r.label("ADMM:not-run(conditioning)")
+                continue
+            mi = max(mi, need)
         y0, z0 = P["y"].copy(), None if P["z"] is None else P["z"].copy()
         G0 = None if P["Gm"] is None or case["G"] == "findiff" else P["Gop"].mat.copy()
-        x_in = None if P["x0"] is None else P["x0"].copy()
+        x_in = None if P["x0"] is None else _lay(P["x0"].copy(), case.get("layout", "c"))
         np.random.seed(case["seed"] % (2 ** 31))
         state = np.random.get_state()
         try:
@@ -295,6 +325,8 @@ def st_case(draw):
         "rho": draw(st.sampled_from([1, 0.5, 2.0])), "accelerate": draw(st.booleans()),
         "smin": 1 / 30.0 if thorough_cond and draw(st.booleans()) else 0.25,
         "reuse": draw(st.sampled_from([None, None, None, "up", "up", "down", "same"])),
+        # memory layout of the caller's x (when given) and y: contiguous or a view of a larger buffer
+        "layout": draw(st.sampled_from(["c", "c", "strided", "column"])),
     }
     if c["proxg"] == "box":
         c["cplx"] = False
